@@ -198,6 +198,49 @@ func runC12(rc *RunCtx) {
 
 	viol := func(class string, sig map[string]any, f string, a ...any) { s.Violate("C12", class, sig, f, a...) }
 
+	// ---- mounts that reach into a child namespace: a mount made in P at
+	// "<child>/<x>" must never serve requests addressed to namespace P/<child>/
+	// (there a token and policy of the child would be authorised against
+	// storage of the parent's mount). Whether the mount request is refused or
+	// accepted is not judged; what a request into the child reaches is. ----
+	nShadow := 0
+	shadowProbe := func(parentNS, childSeg, when string) bool {
+		nShadow++
+		name := fmt.Sprintf("shadow%d", nShadow)
+		childNS := parentNS + childSeg + "/"
+		mr, merr := rootDo(parentNS, "sys/mounts/"+childSeg+"/"+name, logical.UpdateOperation, map[string]any{"type": "rec"})
+		accepted := merr == nil && (mr == nil || !mr.IsError())
+		if accepted {
+			s.Probe("mount_into_child_namespace_accepted")
+		} else {
+			s.Probe("mount_into_child_namespace_refused")
+		}
+		childTok, err := vault.VerifNamespaceRootToken(h.Core, childNS)
+		if err != nil || childTok == "" {
+			return true
+		}
+		before := len(rec.Snapshot())
+		r, _ := h.Do("shadow", Req{NS: childNS, Op: logical.UpdateOperation, Path: name + "/data/k", Token: childTok, Data: map[string]any{"value": "written-by-a-token-of-" + childNS}})
+		for _, e := range rec.Snapshot()[before:] {
+			if e.Kind == "handler" {
+				viol("token-authorised-outside-its-namespace", map[string]any{"target_ns": parentNS, "via": "mount reaching into a child namespace", "when": when},
+					"a mount made in namespace %q at %s/%s (accepted=%v, %s) served a request addressed to namespace %q with a token of that namespace: handler ran, response %v", parentNS, childSeg, name, accepted, when, childNS, r)
+				return false
+			}
+		}
+		if accepted {
+			rootDo(parentNS, "sys/mounts/"+childSeg+"/"+name, logical.DeleteOperation, nil)
+		}
+		return true
+	}
+	if tp.Pick(2) == 0 {
+		for _, pc := range [][2]string{{"", "team"}, {"team/", "sub"}, {"", "other"}} {
+			if tp.Pick(3) != 0 && !shadowProbe(pc[0], pc[1], "child namespace unsealed") {
+				return
+			}
+		}
+	}
+
 	// ---- remounts (same namespace and across namespaces): the moved mount
 	// keeps its data, and from then on lives - entirely - under its new
 	// namespace's storage; the hostile requests below then run against the
@@ -617,8 +660,33 @@ func runC12(rc *RunCtx) {
 					}
 				}
 			}
+			// while team/ is sealed (its sys/ mount is gone from the router): a
+			// mount made in the root namespace under team/'s path; judged once
+			// team/ is unsealed again
+			sealedShadow := ""
+			if tp.Pick(2) == 0 {
+				nShadow++
+				sealedShadow = fmt.Sprintf("shadow%d", nShadow)
+				mr, merr := rootDo("", "sys/mounts/team/"+sealedShadow, logical.UpdateOperation, map[string]any{"type": "rec"})
+				if merr == nil && (mr == nil || !mr.IsError()) {
+					s.Probe("mount_into_sealed_child_namespace_accepted")
+				} else {
+					s.Probe("mount_into_sealed_child_namespace_refused")
+				}
+			}
 			// unseal and read again
 			if _, err := rootDo("", "sys/namespaces/team/unseal", logical.UpdateOperation, map[string]any{"key": teamKeys[0]}); err == nil {
+				if sealedShadow != "" {
+					before := len(rec.Snapshot())
+					r, _ := h.Do("shadow", Req{NS: "team/", Op: logical.UpdateOperation, Path: sealedShadow + "/data/k", Token: teamRootTok, Data: map[string]any{"value": "written-by-a-token-of-team/"}})
+					for _, e := range rec.Snapshot()[before:] {
+						if e.Kind == "handler" {
+							viol("token-authorised-outside-its-namespace", map[string]any{"target_ns": "", "via": "mount reaching into a child namespace", "when": "mounted while the child namespace was sealed"},
+								"a mount made in the root namespace at team/%s while team/ was sealed serves, after the unseal, a request addressed to team/ with a token of team/: handler ran, response %v", sealedShadow, r)
+							return
+						}
+					}
+				}
 				r, err := h.Do("unsealed", Req{Op: logical.ReadOperation, Path: "app/data/probe", Token: h.Root, NS: "team/"})
 				if err != nil || !respHasCanary(r, team.canary) {
 					s.Probe("team_data_unreadable_after_unseal")
